@@ -494,6 +494,8 @@ def write_evidence(prop, tier, seed, coverage, wall_s, violations, assumptions):
         "violations": int(violations),
     }
     write_json(path, ev)
+    if tier == "thorough":  # keep the deep run's record next to the canonical (last-run) file
+        write_json(path[:-5] + ".thorough.json", ev)
     return path
 
 
